@@ -2,4 +2,4 @@
 # usage: run_tlc.sh <MCmodule> [workers] [extra tlc args]; run from /verif/spec
 m=$1; w=${2:-8}; shift; shift 2>/dev/null
 mkdir -p /verif/work/tlc/$m
-cd /verif/spec/mc && exec timeout ${TLC_TIMEOUT:-900} java -XX:+UseParallelGC -Xmx${TLC_XMX:-8g} -DTLA-Library=/verif/spec -cp /opt/veriftools/tla/tla2tools.jar:/opt/veriftools/tla/CommunityModules-deps.jar tlc2.TLC -workers $w -metadir /verif/work/tlc/$m/meta -cleanup -noGenerateSpecTE -config $m.cfg "$@" $m.tla
+cd /verif/spec/mc && exec timeout ${TLC_TIMEOUT:-900} java -XX:+UseParallelGC -Xmx${TLC_XMX:-8g} -Xss1g -DTLA-Library=/verif/spec -cp /opt/veriftools/tla/tla2tools.jar:/opt/veriftools/tla/CommunityModules-deps.jar tlc2.TLC -workers $w -metadir /verif/work/tlc/$m/meta -cleanup -noGenerateSpecTE -config $m.cfg "$@" $m.tla
